@@ -428,8 +428,16 @@ func (dq *Deque[T]) pop(it *element[T]) (out T, _ bool) {
 
 func (dq *Deque[T]) waitPop(ctx context.Context, direction dqDirection) (out T, _ error) {
 	for {
-		if err := dq.root.getNextOrPrevious(direction).wait(ctx, direction); err != nil {
-			return out, err
+		if dq.closed {
+			return out, ErrQueueClosed
+		}
+
+		// only wait while there is nothing to pop: wait on the
+		// root until its link in this direction changes.
+		if dq.root.getNextOrPrevious(direction) == dq.root {
+			if err := dq.root.wait(ctx, direction); err != nil {
+				return out, err
+			}
 		}
 
 		it, ok := dq.pop(dq.root.getNextOrPrevious(direction))
